@@ -974,6 +974,12 @@ impl<const PW: u8, const G: i8> Dev<PW, G> {
 
 pub fn short_loc(loc: &str) -> String {
     let f = loc.rsplit_once(':').map(|x| x.0).unwrap_or(loc);
+    // (wherever a copy of the repository lives)
+    for c in ["lorawan-encoding/", "lorawan-device/", "lorawan-macros/", "lora-modulation/", "lora-phy/"] {
+        if let Some(i) = f.find(c) {
+            return f[i..].to_string();
+        }
+    }
     f.trim_start_matches("/repo/").to_string()
 }
 
